@@ -12,6 +12,7 @@ package verifhook
 import (
 	"cmp"
 	"slices"
+	"sync"
 )
 
 // Runtime is implemented by the simulator.
@@ -21,6 +22,17 @@ type Runtime interface {
 	Unlocked()
 	Go(site string, f func())
 	Suppress(delta int)
+	// OnceEnter serialises callers of one sync.Once at scheduler level (a second caller parks as a
+	// lock waiter until OnceLeave), so the Do body may park without wedging anybody on the Once's
+	// internal mutex.
+	OnceEnter(o *sync.Once)
+	OnceLeave(o *sync.Once)
+	// PoolGet/PoolPut give sync.Pool a per-run deterministic LIFO (a real pool's content depends on
+	// earlier runs in the same process and on GC timing).
+	PoolGet(p *sync.Pool) any
+	PoolPut(p *sync.Pool, x any)
+	// SelectOrder returns the order in which the n communication cases of a select are polled.
+	SelectOrder(n int) []int
 }
 
 var rt Runtime
@@ -65,21 +77,43 @@ func Go(site string, f func()) {
 	go f()
 }
 
-// OnceDo replaces once.Do(f): a task must never park inside Do, because a
-// second caller would block on the Once's internal mutex, which the fake
-// clock's quiescence detection does not treat as durable.
-func OnceDo(do func(func()), f func()) {
+// OnceDo replaces once.Do(f).
+func OnceDo(o *sync.Once, f func()) {
 	r := rt
 	if r == nil {
-		do(f)
+		o.Do(f)
 		return
 	}
-	r.Yield("once.Do")
-	do(func() {
-		r.Suppress(1)
-		defer r.Suppress(-1)
-		f()
-	})
+	r.OnceEnter(o)
+	defer r.OnceLeave(o)
+	o.Do(f)
+}
+
+// SelectOrder is called by rewritten select statements: with a simulator it returns the polling
+// order of the n communication cases (drawn from the choice stream); without one it returns nil and
+// the original select runs untouched.
+func SelectOrder(n int) []int {
+	if r := rt; r != nil {
+		return r.SelectOrder(n)
+	}
+	return nil
+}
+
+// PoolGet replaces p.Get() on a sync.Pool.
+func PoolGet(p *sync.Pool) any {
+	if r := rt; r != nil {
+		return r.PoolGet(p)
+	}
+	return p.Get()
+}
+
+// PoolPut replaces p.Put(x) on a sync.Pool.
+func PoolPut(p *sync.Pool, x any) {
+	if r := rt; r != nil {
+		r.PoolPut(p, x)
+		return
+	}
+	p.Put(x)
 }
 
 // SortedKeys returns the keys of m in ascending order. Rewritten map range
